@@ -120,6 +120,7 @@ class GrowthRule(sym.Rule):
         self.unjudged = 0
         self.public = False
         self.single_pass = False
+        self.other_family = False     # operations outside C10's list: only R04.3 applies
 
     def init(self, f, eng):
         # (allocs, n_alloc_events, alloc_eq_rets, touched)
@@ -212,8 +213,10 @@ class GrowthRule(sym.Rule):
                 exempt = True
         if nalloc == 1:
             self._rep('R10.4', True, f, 'one', sample={'allocations_on_path': nalloc})
+        if self.other_family and not realloc:
+            return
         if realloc:
-            if Sf == size0:
+            if Sf == size0 and not self.other_family:
                 # capacity-only operation (reserve): needed iff capacity < request
                 ev = None
                 for (c, v) in st.conds:
@@ -233,6 +236,15 @@ class GrowthRule(sym.Rule):
                 self._growth(f, st, cap0, size0, Cf, None)
                 return
             e = evidence_gt(cap0, size0, Sf, st)
+            if self.other_family:
+                if e is None and not exempt:
+                    self._rep('R04.3', False, f, 'allocation although the result may fit the capacity the container already has',
+                              'a path installs a freshly allocated buffer without a path condition implying capacity < resulting size, '
+                              'outside the operations that are allowed to (shrink_to_fit, unequal-allocator assignment/swap)',
+                              {'new_size': repr(Sf)[:200]})
+                else:
+                    self._rep('R04.3', True, f, 'realloc', sample={'evidence': e or 'unequal allocators (exempt)'})
+                return
             if e is None and not exempt:
                 self._rep('R10.1', False, f, 'reallocation although the result may fit the old capacity',
                           'a path replaces the buffer without a path condition implying capacity < resulting size '
@@ -336,6 +348,35 @@ def analyse_tu(eng, cfg):
             continue
         grow.public = is_public(f)
         grow.single_pass = 'svp::InIt<' in f.pretty
+        grow.other_family = False
+        nroots += 1
+        eng.walk(f, [grow])
+    # R04.3 for the operations outside C10's list (move assignment family): a fresh allocation
+    # needs evidence that the contents do not fit
+    pub_other = []
+    for f in irrules.gch_roots(eng):
+        bn = base_name(f.pretty)
+        args = f.pretty[f.pretty.find('('):]
+        if is_public(f) and bn in ('assign', 'operator=') and '&&' in args and 'small_vector<' in args:
+            pub_other.append(f)
+    reach2 = set()
+    work = [f.name for f in pub_other]
+    while work:
+        n = work.pop()
+        if n in reach2 or n in reach:
+            continue
+        reach2.add(n)
+        for (cn, lb, ins) in orc._calls.get(n, ()):
+            g = eng.mod.funcs.get(cn)
+            if g is not None and orc.is_gch(cn) and not irrules.is_ctor(g) and not irrules.is_dtor(g):
+                work.append(cn)
+    for n in sorted(reach2):
+        f = eng.mod.funcs[n]
+        if not orc.writes_fields.get(n) or 'ALLOC' not in orc.effects.get(n, ()):
+            continue
+        grow.public = is_public(f)
+        grow.single_pass = False
+        grow.other_family = True
         nroots += 1
         eng.walk(f, [grow])
     for f in pub_erase:
